@@ -299,7 +299,7 @@ def check_C13(run):
     s = gen_schedules(run, svc_gen_cfg(8, clients='{"k1"}', ifaces='{"i1", "i2"}', rounds=2, timeouts=0, binds=2), timeout=900)
     sel = [x for x in s if '"op":"Register"' in x and '"introspect"' in x]
     # ... and long ones over a coarse alphabet (Probe = connect, accept, introspect, close): two serving rounds
-    m = gen_schedules(run, svc_gen_cfg(10, clients='{"k1", "k2", "k3"}', ifaces='{"i1", "i2"}', rounds=2, timeouts=0, binds=2, macro=True), timeout=900)
+    m = gen_schedules(run, svc_gen_cfg(10 if thorough else 9, clients='{"k1", "k2"}', ifaces='{"i1", "i2"}', rounds=2, timeouts=0, binds=2, macro=True), timeout=900)
     msel = [x for x in m if '"op":"Register"' in x and '"op":"Probe"' in x]
     two = [x for x in msel if x.count('"op":"Probe"') >= 2 and x.count('"op":"Serve"') >= 2]
     # ... and connections that stay open: Hold / Ask (introspect again, also while draining after Shutdown) / Drop
@@ -321,6 +321,11 @@ def check_C13(run):
                                    "len10_macro_two_rounds_two_probes": len(two), "len10_macro_held_connections_with_register": len(hsel),
                                    "len10_macro_introspection_while_draining_then_register_then_round_two": len(hcore)}
     hsel = hcore + run.rng.sample(hsel, min(len(hsel), 3000 if thorough else 300))
+    # ... and the attempt to register the built-in interface's own name (refused, nothing changes)
+    bn = gen_schedules(run, svc_gen_cfg(6, clients='{"k1"}', ifaces='{"i1", "org.varlink.service"}', rounds=1, timeouts=0, binds=1, macro=True), timeout=900)
+    bsel = [x for x in bn if '"i":"org.varlink.service"' in x and '"op":"Probe"' in x]
+    run.extra["schedule_space"]["len6_macro_registering_the_builtin_name"] = len(bsel)
+    hsel += bsel if thorough else run.rng.sample(bsel, min(len(bsel), 120))
     if not thorough:
         sel = run.rng.sample(sel, min(len(sel), 500))
         msel = run.rng.sample(two, min(len(two), 350)) + run.rng.sample(msel, min(len(msel), 350))
@@ -341,7 +346,7 @@ def check_C13(run):
     rs = [l for l in run.generate("RealClockGen", GEN_CFG, ["rc_scen.ndjson"])["rc_scen.ndjson"] if '"resolver"' in l]
     table_replay(run, rs, ["realclock"], "RealClock", TR_CFG, "C13 Resolver helpers against a resolver service (GetInfo, Resolve, self, unknown)", shards=1, nontrivial=lambda c: True)
     run.write_evidence("model_checking",
-        "histories = environment histories of spec/ServiceGen.tla: (a) fine-grained, up to 8 actions over {Register i1/i2 (duplicates, while serving, between rounds), Install, Serve, Connect, Deliver, Shutdown, End(introspect)}; (b) coarse, 10 actions over {Register, Install, Serve, Probe (= connect, accept, GetInfo + GetInterfaceDescription of every listed and of 8 candidate unlisted/refused names through the client helpers, close), Shutdown} covering two serving rounds; (c) coarse with connections that stay open, 10 actions over the same plus {Hold, Ask (introspect again over the open connection, also while the service drains after Shutdown), Drop}; seeded samples; identity strings and description texts contain non-ASCII, <>&, U+2028 and an empty version; non-trivial = an introspection happened and at least one registration was refused",
+        "histories = environment histories of spec/ServiceGen.tla: (a) fine-grained, up to 8 actions over {Register i1/i2 (duplicates, while serving, between rounds), Install, Serve, Connect, Deliver, Shutdown, End(introspect)}; (b) coarse, 10 actions over {Register, Install, Serve, Probe (= connect, accept, GetInfo + GetInterfaceDescription of every listed and of 8 candidate unlisted/refused names through the client helpers, close), Shutdown} covering two serving rounds; (d) coarse, 6 actions, with the attempt to register the name org.varlink.service itself; (c) coarse with connections that stay open, 10 actions over the same plus {Hold, Ask (introspect again over the open connection, also while the service drains after Shutdown), Drop}; seeded samples; identity strings and description texts contain non-ASCII, <>&, U+2028 and an empty version; non-trivial = an introspection happened and at least one registration was refused",
         exhaustive=False,
         assumptions=["descriptions are compared byte for byte by the recorder and logged as tokens d:<name>",
                      "the window between Bind and the accept loop is explored by TLC only (registration while listening is forced at the gate 'parked in Accept')"])
